@@ -33,13 +33,14 @@ RULE = ("seeded histories of 3-14 operations over a weighted alphabet favouring 
         "starts with one or two lazy loads; thorough adds all histories of length <= 3 over a fixed 18-letter alphabet; "
         "second family: per format (all ten) histories on one synthesised file of 3-5 series: load, multi-series "
         "getm/getd/getl/getda by shuffled names / full keys / index lists, get, copy and update into a fresh database, iterate, "
-        "clear, rename (index-addressed formats), store on/off; every history of both families is also run through the Lean "
+        "clear, rename (all formats, mostly of series not read yet; corner histories: rename then read, two series exchanging their "
+        "names), store on/off; every history of both families is also run through the Lean "
         "binding model (db.bind: per operation the registered record and the root origin of every returned / cached series, and of "
         "every series read after the history); non-trivial = history with at least one successful mutation and "
         "one rejected operation or cache interaction, or (second family) a multi-series request out of file order; distinct by history")
 
-# (relative path, names in file order); the extension selects the format.  All are index-addressed formats: name-addressed ones
-# are subject to the known finding F17 after a rename and are exercised in the second family (without renaming).
+# (relative path, names in file order); the extension selects the format.  All are index-addressed formats (the registry model's
+# `indices` register holds record numbers); the name-addressed ones are exercised in the second family, renames included.
 FILES = [("d1/f1.pkl", ["a", "b", "c"]), ("d1/f2.pkl", ["a", "x y", "T [kN/m]"]), ("d2/f1.pkl", ["b", "c"]),
          ("d2/g1.ts", ["c", "m(1)", "a", "b"]), ("d1/h1.csv", ["b", "x y", "T [kN/m]", "a"]), ("d2/k1.tda", ["z^2", "b", "a"]),
          ("d1/l1.dat", ["c", "new", "a"])]
@@ -533,7 +534,7 @@ def gen_fmt_history(rng, spec):
             ops.append(["update", sel, rng.random() < 0.5])
         elif r < 0.86:
             ops.append(["iter"])
-        elif r < 0.93 or spec["fmt"] in NAME_ADDRESSED or not fresh:
+        elif r < 0.91 or not fresh:
             nm = rng.choice(names)
             names.remove(nm)
             ops.append(["clear", nm])
@@ -775,18 +776,31 @@ def fmt_execute(spec, path, ops, chk, inp, bind=None):
 
 
 def rename_unread(spec, path, chk):
+    """rename a series that was not read yet, then read every listed series: each is retrievable and holds the data of the record
+    its key was registered for (the former finding F17: name-addressed formats looked the renamed series up under its new name)"""
     from qats import TsDB
+    from . import c01
     db = TsDB.fromfile(path)
-    old = db.register_keys[0]
+    keys0 = list(db.register_keys)
+    old = keys0[0]
     db.rename(old, "renamed_series")
     chk.count("rename-then-read")
-    for k in list(db.register_keys):
+    tol = c01.tol_of(spec["fmt"])
+    for j, k in enumerate(list(db.register_keys)):
+        inp = dict(kind="rename-unread", spec=spec, format=spec["fmt"], renamed=old, key=k)
         try:
-            db.get(name=k, store=False)
+            ts = db.get(name=k, store=False)
         except Exception as e:
-            chk.fail("every listed series is retrievable (after rename of a not-yet-read series)",
-                     dict(kind="rename-unread", spec=spec, format=spec["fmt"], renamed=old, key=k), "series",
-                     err_enum(e) + ": " + str(e)[:80], clause="f17", fmt=spec["fmt"])
+            chk.fail("every listed series is retrievable (after rename of a not-yet-read series)", inp, "series",
+                     err_enum(e) + ": " + str(e)[:80], clause="retrievable", fmt=spec["fmt"])
+            continue
+        nm, wt, wx = c01.stored(spec, j)
+        if spec["fmt"] == "asc":
+            wt, wx = wt[1:], wx[1:]          # known finding F15 (C01)
+        want = "renamed_series" if j == 0 else nm
+        if ts.name != want or not (near(ts.t, wt, tol) and near(ts.x, wx, tol)):
+            chk.fail(T_DATA + " (after rename of a not-yet-read series)", inp, dict(name=want, t=list(wt), x=list(wx)),
+                     dict(name=ts.name, t=list(map(float, ts.t)), x=list(map(float, ts.x))), clause="data", fmt=spec["fmt"])
 
 
 def run(chk):
@@ -802,13 +816,7 @@ def run(chk):
                         "names lists of getm/update/copy contain one pattern or several distinct exact names, so that no key is "
                         "selected twice (overlapping patterns make `_read` construct a series twice)",
                         "`for ts in db` is modelled by its registry effect, getm(names=None, store=True)"]
-    chk.partial += [".asc files of the second family are compared modulo the known finding F15 of C01 (first sample missing)",
-                    "binding theorems: the invariant is proved for every operation except rename of a not-yet-read series of a "
-                    "name-addressed file (binding_step_partial / binding_run_partial; full strength for index-addressed files: "
-                    "binding_run_indexed); the unrestricted statement is refuted by f17_counterexample / f17_swap_counterexample"]
-    # F17: only name-addressed formats, only the renamed key
-    chk.matchers["F17"] = lambda f: f.get("clause") == "f17" and f.get("fmt") in ("h5", "mat", "tdms") and \
-        f["input"]["key"].endswith("renamed_series")
+    chk.partial += [".asc files of the second family are compared modulo the known finding F15 of C01 (first sample missing)"]
     rng = chk.rng
     drv = core.Driver()
     fl = Files()
@@ -865,6 +873,12 @@ def run(chk):
             hs = [[["load", False], ["get", "getm", "names", [spec["names"][i] for i in rev], True], ["iter"]],
                   [["load", False], ["get", "getl", "ind", rev, False], ["get", "getd", "keys", [spec["names"][i] for i in rev], True]],
                   [["load", False], ["get1", spec["names"][k // 2], True], ["get", "getda", "ind", rev, True], ["copy", None, True]]]
+            # the histories of the former finding F17: rename a series that was not read, then read it; two unread series exchange
+            # their names by three renames, then everything is read, copied and read again
+            n0, n1 = spec["names"][0], spec["names"][1]
+            hs += [[["load", False], ["rename", n0, "r1"], ["get1", "r1", True], ["iter"]],
+                   [["load", False], ["rename", n0, "tmpn"], ["rename", n1, n0], ["rename", "tmpn", n1],
+                    ["get", "getm", "names", [n0, n1], True], ["copy", None, True], ["iter"]]]
             hs += [gen_fmt_history(rng, spec) for _ in range(nh)]
             fam2 += [(fmt, spec, path, ops) + fmt_encode(spec, path, ops) for ops in hs]
         replies = drv.run([f[4] for f in fam2])
@@ -875,8 +889,8 @@ def run(chk):
                 chk.dist("fmt-op:" + op[0] + (":" + op[1] + ":" + op[2] if op[0] == "get" else ""))
             if out_of_file_order(spec, ops):
                 chk.nontriv((fmt, repr(ops)))
-        # ---- every listed series is retrievable, also after renaming a not-yet-read series of a name-addressed file (F17) ------------
-        for fmt in ("h5", "ts", "csv"):
+        # ---- every listed series is retrievable and holds its data after renaming a not-yet-read series (all addressing modes) -------
+        for fmt in ("h5", "mat", "tdms", "ts", "csv"):
             spec = c01.gen_spec(rng, 7, fmt, k=2, n=4, variant=0)
             rename_unread(spec, c01.write_file(fl.root, spec), chk)
     finally:
